@@ -67,7 +67,7 @@ struct vp_registry {
 };
 extern struct vp_registry vp_reg;
 /* tag constants (always 0) that mark property-carrying loop-invariant clauses: "(vp_tag_Cxx_name != 0 || clause)" */
-extern int vp_tag_C14_escalate, vp_tag_C03_wake_acq, vp_tag_C06_eval_held, vp_tag_C02_resp, vp_tag_C07_once, vp_tag_C12_sem, vp_tag_C10_cnt, vp_tag_C11_wait, vp_tag_C16_buf, vp_tag_C05_reason, vp_tag_C13_dead, vp_tag_C01_hold;
+extern int vp_tag_C14_escalate, vp_tag_C03_wake_acq, vp_tag_C06_eval_held, vp_tag_C02_resp, vp_tag_C07_once, vp_tag_C12_sem, vp_tag_C10_cnt, vp_tag_C11_wait, vp_tag_C16_buf, vp_tag_C05_reason, vp_tag_C13_dead, vp_tag_C01_hold, vp_tag_C04_consume, vp_tag_C08_note;
 void vp_tags_init (void);
 void vp_reg_clear (void);
 int vp_condition (const void *arg);   /* the client's condition: arbitrary result; C06: only ever called with the mutex held */
@@ -88,6 +88,18 @@ struct vp_waker_ghost {
 	const void *lock;       /* C13: the lock the waiter's dequeue takes; must be held across clear+post (NULL: none required) */
 };
 extern struct vp_waker_ghost vp_wk;
+
+/* ghost of this thread with respect to ONE condition variable (VP_RG_CV) */
+struct vp_cv_ghost {
+	int spin;               /* owns the cv's queue spinlock */
+	int in_wait;            /* inside nsync_cv_wait_with_deadline_generic */
+	int enq_done;           /* C04: the spinlock section that put this waiter on the cv queue (CV_NON_EMPTY set) has completed */
+	int unlinked_by_other;  /* a waker has unlinked this thread's waiter record (remove_count moved while I did not own the spinlock) */
+	int self_dequeued;      /* this thread removed its own record (timeout / cancellation) */
+	unsigned sections;      /* completed spinlock sections */
+	nsync_atomic_uint32_ *my_remove_count;
+};
+extern struct vp_cv_ghost vp_cvg;
 
 /* projection of the global invariant J on this thread's ghost */
 int vp_mu_inv_me (uint32_t w);
